@@ -176,6 +176,72 @@ def invalid_case(name, override, variant):
     return [("invalid-config-accepted", f"{name}: Sampler({ {k: v for k, v in override.items()} }) was accepted (calls so far {called})")]
 
 
+class _CallableLike:
+    def __init__(self, lam):
+        self.lam = lam
+
+    def __call__(self, x):
+        return -self.lam * float(np.sum(np.asarray(x) ** 2))
+
+    def method(self, x):
+        return self(x)
+
+
+def _py_like(x, scale=1.0):
+    return -scale * float(np.sum((np.asarray(x) - 0.5) ** 2))
+
+
+CALLABLE_FORMS = ["itemgetter", "builtin-min", "builtin-max", "methodcaller-sum", "methodcaller-vec", "ufunc-reduce", "np-sum", "partial-python", "partial-builtin",
+                  "callable-instance", "bound-method", "lambda", "np-vectorize"]
+TRANSFORM_FORMS = ["lambda", "operator-pos", "np-array", "ufunc-positive", "bound-method"]
+
+
+def callable_form_case(form, tform, opts, seed):
+    """The likelihood / prior transform as the various kinds of callables Python offers (C-implemented ones have no introspectable
+    signature, partials and callable instances have no __name__, ...): how the callable is implemented is not an option value."""
+    import functools
+    import operator
+    from tempest import Sampler
+    d = 3
+    vec = False
+    like = {"itemgetter": lambda: operator.itemgetter(0), "builtin-min": lambda: min, "builtin-max": lambda: max,
+            "methodcaller-sum": lambda: operator.methodcaller("sum"), "ufunc-reduce": lambda: np.add.reduce, "np-sum": lambda: np.sum,
+            "partial-python": lambda: functools.partial(_py_like, scale=3.0), "partial-builtin": lambda: functools.partial(min),
+            "callable-instance": lambda: _CallableLike(2.0), "bound-method": lambda: _CallableLike(2.0).method, "lambda": lambda: (lambda x: -float(np.sum(x ** 2))),
+            "np-vectorize": lambda: np.vectorize(_py_like, signature="(n)->()"),
+            "methodcaller-vec": lambda: operator.methodcaller("sum", axis=1)}[form]()
+    if form == "methodcaller-vec":
+        vec = True
+
+    class _T:
+        def tr(self, u):
+            return np.array(u)
+    pt = {"lambda": lambda: (lambda u: u * 1.0), "operator-pos": lambda: operator.pos, "np-array": lambda: np.array, "ufunc-positive": lambda: np.positive,
+          "bound-method": lambda: _T().tr}[tform]()
+    out = dict(bad=[], iters=0)
+    np.random.seed(seed)
+    kw = dict(prior_transform=pt, log_likelihood=like, n_dim=d, n_particles=32, vectorize=vec, **opts)
+    try:
+        s = Sampler(**kw)
+    except Exception as e:
+        out["bad"].append(("valid-config-rejected", f"constructor raised {type(e).__name__}: {e} for a likelihood given as {form}, prior transform as {tform}, options {opts}"))
+        return out
+    try:
+        with attach.Hooks() as hk:
+            attach.iteration_budget(hk, 400)
+            s.run(n_total=128, progress=False)
+    except Exception as e:
+        out["bad"].append(("valid-config-raises", f"run() raised {type(e).__name__}: {e} for a likelihood given as {form}, prior transform as {tform}, options {opts}\n{fmt_exc()[-300:]}"))
+        return out
+    out["iters"] = int(s.state.get_history_length())
+    beta = float(s.state.get_current("beta"))
+    lz = float(s.evidence()[0])
+    x, w, l = s.posterior()
+    if not (abs(1 - beta) < 1e-4) or not np.isfinite(lz) or abs(float(np.sum(w)) - 1) > 1e-9 or np.any(x < 0) or np.any(x > 1):
+        out["bad"].append(("valid-config-postcondition", f"likelihood as {form}, transform as {tform}: beta={beta}, logZ={lz}, sum(w)={float(np.sum(w))}"))
+    return out
+
+
 def run():
     ck = Check("C18")
     rng = ck.rng("lattice")
@@ -206,6 +272,26 @@ def run():
             ck.event("valid configurations with checkpoints written to a directory on another filesystem than the temp directory")
         for key, what in val["bad"]:
             ck.violation(key, f"{what}   row={row}", dict(row=row, seed=tasks[i][1]["seed"]))
+    # the user's callables in every form Python offers
+    optsets = [dict(), dict(sample="rwm", clustering=False, resample="syst"), dict(periodic=[0], reflective=[2]), dict(volume_variation=1.0, n_max_clusters=2)]
+    ctasks = []
+    for j, form in enumerate(CALLABLE_FORMS):
+        for r in range(ck.pick(1, 3)):
+            k = j + r * len(CALLABLE_FORMS)
+            ctasks.append(("tvf.checks.c18:callable_form_case", dict(form=form, tform=TRANSFORM_FORMS[k % len(TRANSFORM_FORMS)], opts=optsets[k % len(optsets)],
+                                                                     seed=ck.subseed("callable", k) % 2 ** 31), None))
+    for i, st, val in farm.run(ctasks, timeout=600, jobs=12, progress="C18-callables"):
+        kw = ctasks[i][1]
+        if st == "timeout":
+            ck.inconc(f"callable form {kw}: wall-clock watchdog (not a verdict)")
+            continue
+        if st != "ok":
+            ck.violation("valid-config-crashed-process", f"{kw}: {st} {str(val)[-400:]}", dict(callable_form=kw))
+            continue
+        ck.case(dict(callable_form=kw), nontrivial=val["iters"] > 0)
+        ck.event("valid configurations whose likelihood / prior transform is a builtin, operator object, ufunc method, partial, callable instance, bound method or lambda")
+        for key, what in val["bad"]:
+            ck.violation(key, what, dict(callable_form=kw))
     variants = [dict(), dict(sample="rwm", clustering=False), dict(resample="syst", ess_ratio=1.0), dict(n_max_clusters=2, normalize=False),
                 dict(volume_variation=1.0), dict(volume_variation=0.3, ess_ratio=3.5), dict(periodic=[0]), dict(reflective=[1]), dict(periodic=[1], reflective=[0]),
                 dict(blobs_dtype="float64"), dict(vectorize=True), dict(pool=2), dict(pool=PoolObject()), dict(cluster_every=3, n_steps=2, n_max_steps=2),
